@@ -93,6 +93,7 @@ type Job struct {
 	Unconfirmed int
 	Wall       float64
 	NoReplay   bool
+	NoStub     bool
 	PathSamples []string
 }
 
